@@ -346,7 +346,7 @@ fn first_diff(
         // (`typed3`, $747970656433, is a harness-only host function as well: its conversion messages
         // are checked by the nat engine's oracle; so is `reguard`, $72656775617264: the mem engine's
         // bounded-live-data oracle decides what it leaves behind)
-        let uses_pcall = engine.name() != "sem" && ops[..=i].iter().any(|o| o.contains("$7063616c6c") || o.contains("$747970656433") || o.contains("$72656775617264"));
+        let uses_pcall = engine.name() != "sem" && ops[..=i].iter().any(|o| o.contains("$7063616c6c") || o.contains("$747970656433") || o.contains("$72656775617264") || o.contains("$6767686f73746b6579"));
         if is_model && (!engine.model_compared(&ops[i]) || y == "model-timeout" || uses_pcall) {
             continue;
         }
